@@ -1359,7 +1359,9 @@ class IndexHierarchy(IndexBase):
                 matches.append(as_tuple)
 
         if not matches:
-            return np.full(self.__len__(), False, dtype=bool)
+            post = np.full(self.__len__(), False, dtype=bool)
+            post.flags.writeable = False
+            return post
 
         return isin(self.flat().values, matches)
 
